@@ -223,16 +223,20 @@ impl<K, V, A: Allocator> CaoHashMap<K, V, A> {
             if std::mem::needs_drop::<V>() {
                 std::ptr::drop_in_place(values.add(i));
             }
-        } else {
-            self.hashes_mut()[i] = h;
-            self.count += 1;
+            std::ptr::write(keys.add(i), key);
+            std::ptr::write(values.add(i), value);
+            return Ok(());
         }
+        // grow before storing a new key, so that a failed allocation leaves the map as it was
+        // (no grow is triggered if the key overrides an existing value)
+        if Self::needs_grow(self.count + 1, self.capacity) {
+            self.grow()?;
+            return self.insert_with_hint(h, key, value);
+        }
+        self.hashes_mut()[i] = h;
+        self.count += 1;
         std::ptr::write(keys.add(i), key);
         std::ptr::write(values.add(i), value);
-        // delaying grow so that no grow is triggered if the key overrides an existing value
-        if Self::needs_grow(self.count, self.capacity) {
-            self.grow()?;
-        }
         Ok(())
     }
 
